@@ -1,7 +1,7 @@
 SPECIFICATION Spec
 CONSTANTS
-  Wide = FALSE
-  Kinds = {"vec", "alvec"}
+  Wide = TRUE
+  Kinds = {"rot2", "rot3", "quat", "about", "scalefac", "tcoords"}
 INVARIANT RoundTrip
 INVARIANT VecRoundTrip
 INVARIANT Length
